@@ -135,3 +135,24 @@ package risor
 // C11i built the local importer inside WithLocalImporter with cfg.GlobalNames(): every deny / override option that
 // followed it in the list was recorded and never applied).
 //@ scan[C11.init.callers] C11 extcalls github.com/risor-io/risor.(*Config).init,github.com/risor-io/risor.(*Config).GlobalNames,github.com/risor-io/risor.(*Config).Globals,github.com/risor-io/risor.(*Config).CombinedGlobals,github.com/risor-io/risor.(*Config).VMOpts,github.com/risor-io/risor.(*Config).CompilerOpts: (*Config).CombinedGlobals (*Config).CompilerOpts (*Config).GlobalNames (*Config).Globals (*Config).VMOpts Call Eval EvalCode NewConfig
+
+// C11: an option records what the host asked for - every name, whatever its spelling (`math.PI`, `time.RFC3339` are
+// members too): after WithoutGlobal(name) the name is in the denylist, after WithGlobalOverride(name, v) the override
+// table maps the name to v. Whether a name resolves to anything is decided later, by init(), against the real
+// environment (seed C11j skipped names that do not look like lower snake case: denying or overriding math.PI or a
+// time layout constant silently did nothing).
+//@ func WithoutGlobal$1
+//@ props C11
+//@ requires cfg != nil && cfg.denylist != nil
+//@ ensures[C11.opt.deny.recorded] haskey(cfg.denylist, cap_name)
+
+//@ func WithoutGlobals$1
+//@ props C11
+//@ requires cfg != nil && cfg.denylist != nil
+//@ invariant 1: forall(k, 0, iter, haskey(cfg.denylist, cap_names[k]))
+//@ ensures[C11.opt.deny.recorded] forall(k, 0, len(cap_names), haskey(cfg.denylist, cap_names[k]))
+
+//@ func WithGlobalOverride$1
+//@ props C11
+//@ requires cfg != nil && cfg.overrides != nil
+//@ ensures[C11.opt.override.recorded] haskey(cfg.overrides, cap_name) && cfg.overrides[cap_name] == cap_value
